@@ -79,6 +79,9 @@ class _InlineFunction(XPathFunction):
     varnames: Optional[list[str]] = None
     "Inline function arguments varnames."
 
+    closure: bool = False
+    "`True` for function items created by the evaluation of an inline function expression."
+
     def __str__(self) -> str:
         return str(self.label)
 
@@ -291,8 +294,14 @@ class _InlineFunction(XPathFunction):
         if context is None:
             raise self.missing_context()
         elif self.label.endswith('function'):
-            self.variables = context.variables.copy()  # like a closure
-            return self
+            if self.closure:
+                return self  # already a function item: keep its own bindings
+
+            # Each evaluation yields an independent function item (a closure)
+            func = copy(self)
+            func.variables = context.variables.copy()
+            func.closure = True
+            return func
 
         # A function test
         if not isinstance(context.item, XPathFunction):
